@@ -233,3 +233,76 @@ def c15(ctx):
             "thereby with each other; every case is distinct and non-trivial (it changes or probes the stored entry)")
     return reg_run(ctx, "TestC15", "c15.ndjson", "c15.summary.json", {"VERIF_FRACTION": 35 if quick else 100},
                    [], rule, "path equivalence", tags_of=ttl_tags)
+
+
+def det_run(ctx, pkg, test, tracefile, summary, module, cfg, env, design, rule, what, tags_of=None, timeout=1200, consts=None):
+    """Common shape of the checks whose trace is sequential and fully logged: design configs,
+    driver, deterministic validation (every failing sequence is named by the trace spec)."""
+    for m, c, kw in design:
+        vlib.design_check(ctx, m, c, **kw)
+    out = ctx.dir("drv")
+    e = {"VERIF_OUT": out}
+    e.update(env)
+    rc, o = vlib.go_test(ctx, pkg, test, env=e, timeout=timeout)
+    if crash_or_fail(ctx, rc, o, what):
+        return vlib.finish(ctx, {"evaluations": 0, "distinct_nontrivial": 0, "rule": rule, "samples": ["crash"]})
+    summ = json.load(open(os.path.join(out, summary)))
+    accepted, failures = vlib.validate_chunks(ctx, module, cfg, os.path.join(out, tracefile), consts=consts or {},
+                                              name=ctx.prop.lower())
+    ctx.traces = accepted
+    for seq_lines, line, msg in failures:
+        head = json.loads(seq_lines[0])
+        evs = [json.loads(l) for l in seq_lines[1:line]]
+        tags = {"kind": "sequence", "msg": msg}
+        if tags_of:
+            tags.update(tags_of(head, evs, line, msg))
+        vlib.report_failure(ctx, "%s: %s (sequence %s, line %d)" % (what, msg, head.get("seq"), line), tags,
+                            {"reset": head, "events_up_to_failure": evs[-12:], "replay": "sequence recorded from a real cluster"})
+    cov = {"evaluations": summ["evaluations"], "sequences": summ.get("histories"),
+           "distinct_nontrivial": summ["distinct_nontrivial"], "rule": rule,
+           "samples": summ.get("samples") or [{"note": "no sample"}],
+           "configs": summ.get("configs"), "paths": summ.get("paths"), "exhaustive": bool(summ.get("exhaustive", False))}
+    for k in ("notes",):
+        if summ.get(k):
+            cov[k] = summ[k]
+    return vlib.finish(ctx, cov)
+
+
+def last_op_tags(head, evs, line, msg):
+    ops = [e for e in evs if e.get("t") == "op"]
+    last = ops[-1] if ops else {}
+    return {"op": last.get("op", ""), "ret": last.get("ret", ""), "path_kind": last.get("path", "").split("@")[0]}
+
+
+@register("C04")
+def c04(ctx):
+    quick = ctx.tier == "quick"
+    ctx.assumptions += ["copies are read through the verif-tagged accessor dmap.VerifEntry (decoded copy under the fragment's read lock)",
+                        "the last-access stamp is not part of the comparison"]
+    rule = ("seeded random sequences of 2-4 mutating operations on one key (Put with NX/XX and EX/PX, Expire/PExpire, GetPut, Delete, Incr, Decr, "
+            "Lock/Lease/Unlock, expiry followed by the background sampler's eviction), each operation on a random entry path, N=3, R in {2,3}, "
+            "single- and multi-table fragments; after every reply the copy in every member's primary and backup fragment is logged; "
+            "distinct = distinct (key kind, operation, reply, path) sequences; every sequence changes the stored entry")
+    design = [("DMapKeyMC", "DMapKey_quick.cfg" if quick else "DMapKey_thorough.cfg", {"timeout": 1500})]
+    return det_run(ctx, "reg", "TestC04", "c04.ndjson", "c04.summary.json", "ReplicaTrace", "ReplicaTrace.cfg",
+                   {"VERIF_SEQUENCES": 60 if quick else 1500}, design, rule, "backup mirrors primary", tags_of=last_op_tags)
+
+
+def c05_tags(head, evs, line, msg):
+    e = evs[-1] if evs else {}
+    return {"event": e.get("t", ""), "ret": e.get("ret", ""), "unreachable_backups": e.get("unreach", 0), "cmd": e.get("cmd", "")}
+
+
+@register("C05")
+def c05(ctx):
+    quick = ctx.tier == "quick"
+    ctx.assumptions += ["an unreachable backup = its RESP listener is closed while it stays in the member list",
+                        "a failed quorum Put is not required to roll back the copies it stored",
+                        "internal.node.updaterouting is exempt from the member-count precondition by design and is not probed"]
+    rule = ("every (R, W, RQ) with 1 <= W, RQ <= R <= 3 x every set of unreachable backup owners (one 3-member cluster each): Get on keys present "
+            "everywhere / only on the owner / only on backups / on owner and one backup / nowhere and Put on existing and new keys, through embedded, "
+            "RESP and cluster-client paths, reply judged against the white-box number of copies; member-count quorum 2 and 3 probed with 14 commands and "
+            "NewDMap while members leave; non-trivial = the number of copies is within one of the quorum; quick runs a seeded third of the configurations")
+    design = [("Quorum", "Quorum.cfg", {})]
+    return det_run(ctx, "reg", "TestC05", "c05.ndjson", "c05.summary.json", "QuorumTrace", "QuorumTrace.cfg",
+                   {"VERIF_FRACTION": 34 if quick else 100}, design, rule, "quorum enforcement", tags_of=c05_tags)
